@@ -573,13 +573,13 @@ def ladder_suite(ctx, name, lines, res):
         c = json.loads(ln)
         mode = c['mode']
         payload = c['q'] if mode == 'parse' else json.dumps({'q': c['q'], 'doc': c['doc']})
-        out = run_lines(HBIN, mode, [payload], timeout=10)
+        out = run_lines(HBIN_LADDER if os.path.exists(HBIN_LADDER) else HBIN, mode, [payload], timeout=15)
         r = json.loads(out[0])
         res.stats['cases'] += 1; info['cases'] += 1
         st = status_of(r); res.stats['ladder_' + st] += 1
         res.nontrivial.add(chash([c['shape'], c['depth']]))
         if st in ('panic', 'abort', 'timeout'):
-            kfs = [k for k in ctx.my_kf if (k['class'] == 'deep_nesting' and c['depth'] >= k.get('min_depth', 1000) and st == 'abort')
+            kfs = [k for k in ctx.my_kf if (k['class'] == 'deep_nesting' and c['shape'] in k.get('shapes', []) and c['depth'] >= k.get('min_depth', 1000) and st == 'abort')
                    or (k['class'] == 'exponential_backtracking' and c['shape'] == k.get('shape') and c['depth'] >= k.get('min_depth', 1000) and st == 'timeout')]
             if kfs:
                 res.stats['known_finding_cases'] += 1
